@@ -18,8 +18,8 @@ func init() {
 		Title: "Date parser accepts only real calendar dates and keeps their components",
 		Run:   runC09,
 		Explanation: "C09.layout: the end-relative separator tests of date.DefaultParser are turned into a decision table over (byte at len-3 is '-', len-5, len-6, RuleDisableBasic); the accepted layout language L_acc = pattern ∩ (continue valuations) is computed on the DFA of the regexp constant and must satisfy L_acc ⊆ D{4,9}-DD-DD ∪ D{4,9}DDDD (no half-separated form) and Real ⊆ L_acc, Real being the checker's own real-calendar-date language (Gregorian leap rule over decimal digits, self-checked by counting 3 652 425 words of length 8). " +
-			"C09.valid: either L_acc ⊆ Real, or the month and day decoded from captures 2,3 pass, before the success return, a calendar-validity guard comparing them with components of the normalised construction (New/time.Date round trip), failing edge returning a parse error; otherwise the shortest word of L_acc \\ Real is reported. " +
-			"C09.comp: captures 1,2,3 flow through strconv.Atoi into New(year, month, day) in that order. S-ERRZERO, S-WRAP, C18.L for package date.",
+			"C09.valid / C09.comp: DefaultParser evaluated on a text of the extended layout with the match returning opaque captures, Atoi(capture k) an opaque number, New and Date()/Year()/Month()/Day() uninterpreted; the comparisons between a component of New(…) and a parsed number are the atoms of a decision tree: the value accepted is New(num 1, num 2, num 3), and it is accepted exactly on the valuation where year, month and day were each compared with the number of the matching capture and found equal — every other valuation ends in an error, and an accepting valuation that never asked about a component is a violation. "+
+			"S-ERRZERO, S-WRAP, C18.L for package date.",
 		NotDecided:  []string{"time.Date∘Time.Date is the identity on real dates (trusted summary)", "a validity guard written as an explicit days-in-month table is outside the enumerated idioms and would be reported undecided"},
 		Assumptions: []string{"time.Date normalises out-of-range components and is the identity on in-range ones", "strconv.Atoi is exact on digit strings of at most 9 digits"},
 		Technique:   "regular-language inclusion on DFAs + taint/sanitizer dominator rule over go/ssa",
